@@ -106,7 +106,10 @@ def eval_cases(name, terms, shard=150, timeout=900, fn="codes"):
             maxdiff = max(maxdiff, float(md.group(1).replace("infinity", "inf")))
         except Exception:
             maxdiff = float("nan")
-        for a, b in re.findall(r"\((\d+),\s*(\d+)\)", m.group(2)):
+        pairs = re.findall(r"\(\s*(\d+)\s*,\s*(\d+)\s*\)", m.group(2))
+        if len(pairs) != m.group(2).count("("):          # fail closed: every printed pair must have been parsed
+            return None, f"shard {si}: could not parse the list of codes\n{m.group(2)[:500]}", None
+        for a, b in pairs:
             codes[si * shard + int(a)] = int(b)
     return codes, None, maxdiff
 
@@ -206,6 +209,21 @@ def run(ctx):
                                  got={k: mobs[ci].get(k) for k in ("k", "shapes", "off", "diag")},
                                  model_disagrees="batch element differs from the single-start run of the same start vector "
                                                  + {3: "(fewer columns)", 4: "(values)"}[cd]))
+    # exact-arithmetic stream (integer / dyadic data, canonical start vectors, involutions, 2x2 blocks, 1x1): beta exactly 0.0 at
+    # exhaustion, tolerances on the boundary of the stopping test (0, beta_1/||A q_1||, 1), every max_iters around the grade and
+    # around n; bit-exact runs, compared without any excuse (codes_plain) and by the oracle
+    exact = [L.gen_exact_case(ctx.rng) for _ in range(ctx.budget(120, 700))]
+    xobs = [L.run_impl(c) for c in exact]
+    xok = [i for i, o in enumerate(xobs) if o.get("ok")]
+    xcodes, xerr, _ = eval_cases("c14_exact", [L.coq_case(exact[i], xobs[i], "lanczos_alias_identity" in present, rfix) for i in xok], fn="codes_plain")
+    if xerr:
+        mism.append(dict(oracle_fail=False, harness_error=xerr))
+    xbad = {xok[j] for j in (xcodes or {})}
+    for i, (c, o) in enumerate(zip(exact, xobs)):
+        bad = L.oracle(c, o)
+        if bad or i in xbad:
+            mism.append(dict(oracle_fail=bool(bad), case=c, got={k: o.get(k) for k in ("ok", "err", "k", "shapes", "off", "diag")}, failed_clauses=bad,
+                             model_disagrees=("exact-arithmetic case: columns/values differ from the model (no tolerance excuse applies)" if i in xbad else None)))
     for c in gone_region + big:
         o = L.run_impl(c)
         bad = L.oracle(c, o, check_span=c["n"] <= 64)
@@ -226,7 +244,7 @@ def run(ctx):
             m = min(c["max_iters"], c["n"])
             eh["early" if o["k"] < m else "cap"] = eh.get("early" if o["k"] < m else "cap", 0) + 1
     return dict(
-        evaluations=len(cases) + len(gone_region) + len(big) + len(mixed), distinct_nontrivial=distinct,
+        evaluations=len(cases) + len(gone_region) + len(big) + len(mixed) + len(exact), distinct_nontrivial=distinct,
         rule="Hermitian operators n<=%d (dense/PSD/Sum/Product/Diagonal/ScalarMul/Kronecker/Tridiagonal/matmat-defined; real and complex; gaussian, definite, indefinite, "
              "repeated and clustered spectra), starts random/few eigenvectors/exact eigenvectors/scaled, 1-D and batched, max_iters 1..n+3, ten tolerances; "
              "non-trivial = n>=3 and >=2 columns returned; distinct by hash of (operator data, start, max_iters, tol)" % nmax,
@@ -236,7 +254,7 @@ def run(ctx):
         extra=dict(compared_in_coq=len(idx) + alias_wit, model_stopping_test=("repaired" if rfix else "pinned"), alias_witness_compared=alias_wit, max_model_impl_difference=maxdiff, tolerance=1e-9, near_tie=hist.get(1, 0), noise_amplified_skipped=hist.get(2, 0), agree=hist.get(0, 0),
                    kind_histogram=kh, start_histogram=sh, max_iters_vs_n=mh, exit_histogram=eh,
                    complex_cases=sum(1 for c in cases if c["cplx"]), batched_cases=sum(1 for c in cases if c["batch"]),
-                   avoided_regions=avoided, mixed_batches_used=len(mixed), batch_elements_vs_single_start=elem_compared, defect_free_region_cases=len(gone_region), large_oracle_only=len(big),
+                   avoided_regions=avoided, exact_stream_cases=len(exact), exact_stream_tol0=sum(1 for c in exact if c['tol'] == 0.0), mixed_batches_used=len(mixed), batch_elements_vs_single_start=elem_compared, defect_free_region_cases=len(gone_region), large_oracle_only=len(big),
                    impl_exceptions=sum(1 for o in obs if not o.get("ok"))))
 
 
